@@ -9,7 +9,7 @@ use minicbor::encode::write::Cursor;
 use minicbor::{Decoder, Encoder};
 use vref::*;
 
-const L: usize = 14; // initial byte + 8 argument bytes + up to 4 payload bytes + 1 suffix byte
+const L: usize = 14; // initial byte + up to 8 argument bytes + payload (whatever fits) + suffix
 
 fn token_int_value(t: &Token) -> Option<i128> {
     Some(match *t {
@@ -50,7 +50,6 @@ pub fn step<const B: u8>() -> bool {
         assert!(pos == L);
         return true;
     }
-    if is_str { kani::assume(h.arg <= 4); }
     let item_len = h.width + if is_str { h.arg as usize } else { 0 };
     assert!(matches!(r, Some(Ok(_))) || (major == 3 && ai != 31), "well-formed head yielded no token");
     let tok = match r { Some(Ok(t)) => t, Some(Err(_)) => {
